@@ -754,8 +754,11 @@ impl LatestBlockFilterHashes {
             }
         }
         // Update block filter hashes.
+        // The message may be shorter than the known hashes it overlaps, then nothing is new.
         let index = start_index_for_new + self.inner[start_index_for_old..].len();
-        self.inner.extend_from_slice(&block_filter_hashes[index..]);
+        if let Some(new_hashes) = block_filter_hashes.get(index..) {
+            self.inner.extend_from_slice(new_hashes);
+        }
         if end_number < last_proved_number {
             Ok(Some(end_number + 1))
         } else {
